@@ -202,12 +202,24 @@ def case_pairing_api(p):
         cap = Cap(rig)
         pr = rig.pairing
 
-        def issue(label, coro, expect):
+        def issue(label, coro, expect, backpressure=False):
             """expect: list of (method, target_regex_or_str, json_obj_or_None, ctype, tlv_items_or_None)"""
             nonlocal n
             m = cap.mark()
             try:
-                rig.run(coro)
+                if backpressure:
+                    proto = rig.conn.protocol
+                    proto.pause_writing()
+                    t_ = rig.loop.create_task(coro)
+                    rig.loop.run_until_idle()
+                    proto.resume_writing()
+
+                    async def wait():
+                        return await t_
+
+                    rig.run(wait())
+                else:
+                    rig.run(coro)
             except Exception as e:  # noqa: BLE001
                 out.append((f"api-raises:{type(e).__name__}", {"api": label, "err": str(e)[:200]}))
                 return
@@ -272,6 +284,22 @@ def case_pairing_api(p):
             same = lambda ev: (lambda got: {"characteristics": sorted(got["characteristics"], key=lambda c: (c["aid"], c["iid"]))} if sorted(got.get("characteristics", []), key=lambda c: (c["aid"], c["iid"])) == body(ev)["characteristics"] else body(ev))  # noqa: E731
             issue(f"subscribe:{kind}", pr.subscribe(mk(subs)), [("PUT", "/characteristics", (lambda got: got if sorted(got.get("characteristics", []), key=lambda c: (c["aid"], c["iid"])) == body(True)["characteristics"] else None), "application/hap+json", None)])
             issue(f"unsubscribe:{kind}", pr.unsubscribe(mk(subs)), [("PUT", "/characteristics", (lambda got: got if sorted(got.get("characteristics", []), key=lambda c: (c["aid"], c["iid"])) == body(False)["characteristics"] else None), "application/hap+json", None)])
+        # one long-lived container that the caller keeps and edits between calls (a poller's set of ids): every request shows what it holds NOW
+        for mk_c, edit in ((set, lambda c, x, add: c.add(x) if add else c.discard(x)), (list, lambda c, x, add: c.append(x) if add else c.remove(x)),
+                           (dict.fromkeys, lambda c, x, add: c.__setitem__(x, None) if add else c.pop(x))):
+            live = mk_c([(1, 9), (2, 9)])
+            now = [(1, 9), (2, 9)]
+            for step_, (x, add) in enumerate([((1, 10), True), ((1, 9), False), ((2, 10), True), ((1, 10), False), ((1, 9), True)]):
+                issue(f"get_characteristics:kept-{type(live).__name__}:step{step_}", pr.get_characteristics(live), [("GET", read_target(list(now)), None, None, None)])
+                edit(live, x, add)
+                now = now + [x] if add else [i for i in now if i != x]
+            issue(f"get_characteristics:kept-{type(live).__name__}:last", pr.get_characteristics(live), [("GET", read_target(list(now)), None, None, None)])
+            issue(f"get_characteristics:fresh-list-after-kept-{type(live).__name__}", pr.get_characteristics(list(now)), [("GET", read_target(list(now)), None, None, None)])
+        # the transport applies back-pressure (its write buffer is above the high-water mark) while a request is issued, and lifts it later: the
+        # request still reaches the transport in one piece
+        issue("get:issued-under-write-back-pressure", pr.get_characteristics([(1, 9), (1, 10)]), [("GET", read_target([(1, 9), (1, 10)]), None, None, None)], backpressure=True)
+        issue("put-3-blocks:issued-under-write-back-pressure", pr.put_characteristics([(1, 9, "x" * 2500)]),
+              [("PUT", "/characteristics", {"characteristics": [{"aid": 1, "iid": 9, "value": "x" * 2500}]}, "application/hap+json", None)], backpressure=True)
         issue("get_characteristics-dup", pr.get_characteristics([(1, 9), (1, 9), (1, 10)]), [("GET", read_target([(1, 9), (1, 10)]), None, None, None)])
         issue("get_characteristics-set", pr.get_characteristics({(2, 9), (1, 10)}), [("GET", read_target([(2, 9), (1, 10)]), None, None, None)])
         vals = [True, False, 0, 37, -5, 2.5, "text with \"quotes\" and ü", 1e3]
